@@ -157,7 +157,8 @@ def SetupFromBoot(boot):
     su.staker = m["native_chain_config"]["staker_address"]
     su.collector = m["native_chain_config"]["reward_collector_address"]
     su.channel = m["protocol_chain_config"]["ibc_channel_id"]
-    su.lst = "factory/%s/%s" % (su.contract, m["liquid_stake_token_denom"])
+    su.sub = m["liquid_stake_token_denom"]
+    su.lst = "factory/%s/%s" % (su.contract, su.sub)
     return su
 
 
@@ -218,7 +219,8 @@ def check(pid, tier, seed):
             findings += f2
     if "crossbuild" in spec.get("extra", []):
         from vlib.runner import cross_build
-        cs, cd = cross_build(40 if quick else 1500, seed + 7, profile, 50 if quick else 120)
+        cs, cd, cf = cross_build(40 if quick else 1500, seed + 7, profile, 50 if quick else 120)
+        findings += cf
         all_stats.histories += cs["histories"]
         all_stats.calls += cs["calls"]
         notes["cross_build"] = cs
@@ -282,6 +284,16 @@ def check(pid, tier, seed):
         n += 1
         path = write_replay(pid, "pure", seed, n, d)
         violations.append(("pure", path, False))
+    # a correspondence break that is itself a failing input of the property (e.g. bytes canonical under the
+    # pinned protobuf definition that the bindings do not return, a non-canonical type URL)
+    for d in rel_divs:
+        det = d["detail"] if isinstance(d["detail"], dict) else {}
+        if det.get("witness"):
+            n += 1
+            path = write_replay(pid, "witness", d["seed"], n, {"seed": d["seed"], "kind_of_input": det.get("kind"), "input": det,
+                                                                "what": det.get("what", det.get("kind"))})
+            violations.append(("witness", path, False))
+            new[("witness", n)] = det
     # broken proof / correspondence with no monitor finding -> search, then report
     if proofs["broken"] and not new:
         path = write_replay(pid, "proof", seed, 0, {"broken_theorem_or_stream": proofs["broken"],
